@@ -190,9 +190,9 @@ func genOp(r *Rng, hp *histPool, id int, decodes []int, tasks []Task) Task {
 	}
 	switch x := r.Intn(20); {
 	case x < 8:
-		return Task{ID: id, Call: "Decode", In: pickSingle(), Opts: optSets[r.Intn(len(optSets))], Read: genPlan(r, false, true)}
+		return Task{ID: id, Call: "Decode", In: pickSingle(), Opts: optSets[r.Intn(len(optSets))], SharedOpts: r.Chance(1, 3), Read: genPlan(r, false, true)}
 	case x < 10 && len(hp.chainIDs) > 0:
-		return Task{ID: id, Call: "DecodeChained", In: hp.chainIDs[r.Intn(len(hp.chainIDs))], Opts: optSets[r.Intn(len(optSets))], Read: genPlan(r, false, true)}
+		return Task{ID: id, Call: "DecodeChained", In: hp.chainIDs[r.Intn(len(hp.chainIDs))], Opts: optSets[r.Intn(len(optSets))], SharedOpts: r.Chance(1, 3), Read: genPlan(r, false, true)}
 	case x == 10:
 		return Task{ID: id, Call: "CheckIntegrity", In: pickSingle(), Read: genPlan(r, false, true)}
 	case x == 11:
